@@ -194,7 +194,7 @@ func init() {
 	c07 := &scnCheck{ID: "C07", Judge: c07Judge, Nontrivial: anyNested,
 		Opts: func(tier string) (*scnOpts, int, [][]bool) {
 			o := &scnOpts{Forks: threeFork, Answers: failAlphabet, BoundAll: true, TopValues: []int{0, 2}}
-			o.Gen = scn.GenOpts{MaxDepth: 2, Effects: []scn.Effect{scn.ENone, scn.ESstore}, PreEffects: []scn.Effect{scn.ENone}, Terms: allTerms, Kinds: allKinds, Values: []int{0, 1, 2}, Targets: allTgts}
+			o.Gen = scn.GenOpts{MaxDepth: 2, Effects: []scn.Effect{scn.ENone, scn.ESstore, scn.ECallLeaf}, PreEffects: []scn.Effect{scn.ENone}, Terms: allTerms, Kinds: allKinds, Values: []int{0, 1, 2}, Targets: allTgts}
 			bound := 1
 			modes := [][]bool{{true}, {true, true, true}, {true, false, true}}
 			if tier == "thorough" {
